@@ -78,10 +78,20 @@ func genInferFiles(r *simrt.Rand, ties bool) (files map[string]string, args []st
 			fmt.Fprintf(&tg, "2021-%02d-%02d \"%s\"\nAssets:Bank %s %s CHF\n\n", r.Range(1, 12), r.Range(1, 28), rc[0], placeholder, rc[1])
 			continue
 		}
-		fmt.Fprintf(&tg, "2021-%02d-%02d \"%s\"\n", r.Range(1, 12), r.Range(1, 28), descPool[r.Intn(len(descPool)-1)])
+		desc := descPool[r.Intn(len(descPool)-5)]
+		if r.P(0.3) {
+			desc = []string{"Qwertz uiop", "Unseen words only", "ZZZ"}[r.Intn(3)]
+		}
+		fmt.Fprintf(&tg, "2021-%02d-%02d \"%s\"\n", r.Range(1, 12), r.Range(1, 28), desc)
 		nb := 1
 		if r.P(0.3) {
 			nb = r.Range(2, 3)
+		}
+		if r.P(0.15) {
+			// a booking that shares no token with the training data: unseen words,
+			// unseen commodity, unseen amount, unseen counter-account
+			tg.WriteString("Liabilities:Visa9   " + placeholder + "  137.21 JPY\n\n")
+			continue
 		}
 		for b := 0; b < nb; b++ {
 			other := inferAccs[r.Intn(len(inferAccs))]
